@@ -7,15 +7,47 @@ cd "$(dirname "$0")"
 export VERIF_ROOT="$(pwd)"
 export CARGO_NET_OFFLINE=true
 export VERIF_SEED="${VERIF_SEED:-0}"
-build_log=$(mktemp)
-if ! cargo build --release --manifest-path harness/Cargo.toml --bin ohv >"$build_log" 2>&1; then
-    cat "$build_log"
-    rm -f "$build_log"
-    echo "INCONCLUSIVE: harness build failed"
-    exit 2
-fi
-rm -f "$build_log"
+
+build() { # build <log label> <cargo args...>
+    local log
+    log=$(mktemp)
+    if ! cargo "${@:2}" >"$log" 2>&1; then
+        cat "$log"
+        rm -f "$log"
+        echo "INCONCLUSIVE: $1 build failed"
+        exit 2
+    fi
+    rm -f "$log"
+}
+
+build_harness() {
+    build harness build --release --manifest-path harness/Cargo.toml --bin ohv
+}
+
+build_pyext() {
+    # the Python extension is built from /repo's working tree (workspace member opening-hours-py)
+    build "python extension" build --release --lib --features pyo3/extension-module \
+        --manifest-path /repo/opening-hours-py/Cargo.toml --target-dir harness/target/pyext
+    mkdir -p harness/target/pyext/mod
+    cp -f harness/target/pyext/release/libopening_hours.so harness/target/pyext/mod/opening_hours.so
+}
+
 case "${1:-}" in
-    replay) exec harness/target/release/ohv replay "$2" ;;
-    *)      exec harness/target/release/ohv run "$1" "${2:-quick}" "${@:3}" ;;
+    replay)
+        build_harness
+        if grep -q '"property": *"C12"' "$2" 2>/dev/null; then
+            build_pyext
+            exec python3-vt py/c12.py replay "$2"
+        fi
+        exec harness/target/release/ohv replay "$2"
+        ;;
+    C12)
+        build_harness
+        build_pyext
+        exec python3-vt py/c12.py run "${2:-quick}"
+        ;;
+    *)
+        build_harness
+        exec harness/target/release/ohv run "$1" "${2:-quick}" "${@:3}"
+        ;;
 esac
